@@ -166,6 +166,40 @@ func c02Mutations(st c02State, thorough bool) (out []c02Mut) {
 		in2 := append(append(append([]byte{}, raw[:len(hdr)+9]...), ext...), raw[len(hdr)+9:]...)
 		add("extend-inside", fmt.Sprintf("%d bytes inserted after the key ids", n), c13B64(in2))
 	}
+	// structure-preserving re-encodings: the same field values in a different byte representation (length words
+	// kept consistent, so the message still parses) — the MAC covers the bytes sent, not the values parsed
+	if off := len(hdr) + 9; off+4 <= authLen {
+		l := int(binary.BigEndian.Uint32(raw[off:]))
+		if off+4+l <= authLen {
+			for _, k := range []int{1, 2, 7} {
+				b := append([]byte{}, raw[:off]...)
+				b = append(b, AppendWord(nil, uint32(l+k))...)
+				b = append(b, make([]byte, k)...)
+				b = append(b, raw[off+4:]...)
+				add("re-encode", fmt.Sprintf("next D-H key re-encoded with %d leading zero byte(s)", k), c13B64(b))
+			}
+			// ciphertext field lengthened / shortened by one byte with its length word adjusted
+			coff := off + 4 + l + 8
+			if coff+4 <= authLen {
+				cl := int(binary.BigEndian.Uint32(raw[coff:]))
+				if coff+4+cl == authLen {
+					b := append([]byte{}, raw[:coff]...)
+					b = append(b, AppendWord(nil, uint32(cl+1))...)
+					b = append(b, raw[coff+4:authLen]...)
+					b = append(b, 0)
+					b = append(b, raw[authLen:]...)
+					add("re-encode", "ciphertext lengthened by a zero byte, length word adjusted", c13B64(b))
+					if cl > 0 {
+						b2 := append([]byte{}, raw[:coff]...)
+						b2 = append(b2, AppendWord(nil, uint32(cl-1))...)
+						b2 = append(b2, raw[coff+4:authLen-1]...)
+						b2 = append(b2, raw[authLen:]...)
+						add("re-encode", "ciphertext shortened by one byte, length word adjusted", c13B64(b2))
+					}
+				}
+			}
+		}
+	}
 	// base64 level
 	enc := st.Msg
 	const alpha = "ABCDEFGHIJKLMNOPQRSTUVWXYZabcdefghijklmnopqrstuvwxyz0123456789+/"
@@ -502,7 +536,7 @@ func init() {
 			return nil
 		},
 		Run: func(r *verifReport) {
-			r.Rule = "session states at several ratchet positions and in a second session (v2, v3) × every kind of data message in flight (text either way, SMP, disconnect, extra key) × single deviations: EVERY raw byte position × xor {01,80,ff}, EVERY truncation length, extension by 1/4 bytes inside and after the authenticated part, base64 character substitutions, and field substitutions (key ids ±1 / retired pair, counter ±1, next DH, flag, ciphertext swapped or bit-flipped) with the MAC left alone AND recomputed under every MAC key disclosed on the wire so far (both sessions) and unrelated keys; each delivered to a clone of the receiver. Reference verdict: authentic ⇔ header+authenticated body+MAC byte-identical to the genuine message. Non-authentic ⇒ no plaintext, no data-message reply, no SMP/security/key event, message and SMP state unchanged; authentic ⇒ delivered exactly. Plus: cleartext lines (plain, whitespace-tagged, OTR-looking) injected once and twice into sessions started by query or by whitespace tag, fresh / after traffic / finished, and into plaintext conversations that require encryption: whatever Receive returns must be flagged by a received-unencrypted event carrying the same text"
+			r.Rule = "session states at several ratchet positions and in a second session (v2, v3) × every kind of data message in flight (text either way, SMP, disconnect, extra key) × single deviations: EVERY raw byte position × xor {01,80,ff}, EVERY truncation length, extension by 1/4 bytes inside and after the authenticated part, consistent re-encodings (next D-H key with 1/2/7 leading zero bytes, ciphertext lengthened/shortened with its length word adjusted), base64 character substitutions, and field substitutions (key ids ±1 / retired pair, counter ±1, next DH, flag, ciphertext swapped or bit-flipped) with the MAC left alone AND recomputed under every MAC key disclosed on the wire so far (both sessions) and unrelated keys; each delivered to a clone of the receiver. Reference verdict: authentic ⇔ header+authenticated body+MAC byte-identical to the genuine message. Non-authentic ⇒ no plaintext, no data-message reply, no SMP/security/key event, message and SMP state unchanged; authentic ⇒ delivered exactly. Plus: cleartext lines (plain, whitespace-tagged, OTR-looking) injected once and twice into sessions started by query or by whitespace tag, fresh / after traffic / finished, and into plaintext conversations that require encryption: whatever Receive returns must be flagged by a received-unencrypted event carrying the same text"
 			r.Assumptions = []string{"forgeries use only keys an attacker can read off the wire (disclosed MAC keys) or invent; the genuine current MAC key is used only by the unchanged control", "multi-byte changes beyond the listed field substitutions are not covered"}
 			type job struct {
 				st c02State
